@@ -34,5 +34,16 @@ if [ ! -f Cargo.lock ]; then
     chmod u+w Cargo.lock
 fi
 
-cargo build --offline --manifest-path "$HERE/Cargo.toml" --target-dir "$TARGET" $FEATURES
-echo "built: $TARGET/debug/harness"
+mkdir -p "$TARGET"
+if cargo build --offline --manifest-path "$HERE/Cargo.toml" --target-dir "$TARGET" $FEATURES > "$TARGET/macro_src.log" 2>&1; then
+    cat "$TARGET/macro_src.log"
+    echo "built: $TARGET/debug/harness"
+elif grep -q 'microscpi-macros/src/\(command\|tree\)\.rs\|src/ops\.rs\|src/main\.rs' "$TARGET/macro_src.log" \
+     && cargo build --offline --manifest-path "$HERE/Cargo.toml" --target-dir "$TARGET" --no-default-features $FEATURES; then
+    # the by-path include of the macro crate's internals (or the glue around it) does not build: everything
+    # else does.  Only the MACRO op is unavailable (it answers `unavailable…`), which the checks that use it report.
+    echo "built WITHOUT the macro crate's sources (see $TARGET/macro_src.log): $TARGET/debug/harness"
+else
+    cat "$TARGET/macro_src.log"
+    exit 101
+fi
